@@ -3,7 +3,8 @@
 #[cfg(kani)]
 mod verif_indicators {
 	use crate::core::{Action, Candle, IndicatorConfig, IndicatorInstance, ValueType};
-	use crate::indicators::PivotReversalStrategy;
+	use crate::core::Source;
+	use crate::indicators::{PivotReversalStrategy, TrendStrengthIndex};
 
 	fn candle(low: ValueType, high: ValueType) -> Candle {
 		Candle { open: low, high, low, close: high, volume: 1.0 }
@@ -25,16 +26,38 @@ mod verif_indicators {
 			k += 1;
 		}
 	}
-	// the documented positive case holds: lows 5,4,3,4 / highs 6,5,4,5 have a low pivot at the third candle, reported one step later as a full buy
+	// the documented positive case holds: lows 5,4,3,4 under steadily rising highs 6,7,8,9 have a low pivot at the third candle and no high pivot;
+	// it is reported one step later as a full buy
 	#[kani::proof]
 	#[kani::unwind(8)]
 	fn vk_pivot_reversal_low_pivot_buys() {
 		let cfg = PivotReversalStrategy { left: 1, right: 1 };
 		let mut inst = cfg.init(&candle(5.0, 6.0)).unwrap();
 		let _ = inst.next(&candle(5.0, 6.0));
-		let _ = inst.next(&candle(4.0, 5.0));
-		let _ = inst.next(&candle(3.0, 4.0));
-		let r = inst.next(&candle(4.0, 5.0));
+		let _ = inst.next(&candle(4.0, 7.0));
+		let _ = inst.next(&candle(3.0, 8.0));
+		let r = inst.next(&candle(4.0, 9.0));
 		assert!(r.signal(0) == Action::BUY_ALL);
+	}
+
+	// documented signal 2 of TrendStrengthIndex: "When main value is below lower zone and changes direction upwards, gives full positive #2 signal.
+	// When main value is above upper zone and changes direction downwards, gives full negative #2 signal."
+	// Closes 10, 10, 11, 10, 11 (period 4, zone 0.75): the main value peaks at 0.775 (step 2), above the upper zone, and turns down, so the
+	// pivot reported at step 4 must not be a buy. KNOWN FINDING (C06): it is a full POSITIVE signal (the sign is the opposite of the documented
+	// one; the zone test reads the source price instead of the main value, so it also fires for peaks far inside the zone, e.g. 0.447 two steps later).
+	#[kani::proof]
+	#[kani::unwind(8)]
+	fn vk_trend_strength_signal2_sign() {
+		let cfg = TrendStrengthIndex { period: 4, zone: 0.75, reverse_offset: 2, source: Source::Close };
+		let closes = [10.0, 10.0, 11.0, 10.0, 11.0];
+		let mut inst = cfg.init(&candle(10.0, 10.0)).unwrap();
+		let mut k = 0;
+		while k < 5 {
+			let r = inst.next(&candle(closes[k], closes[k]));
+			if k == 4 {
+				assert!(r.signal(1) != Action::BUY_ALL);
+			}
+			k += 1;
+		}
 	}
 }
